@@ -154,3 +154,70 @@ Example C10_nonvacuous :
   | _ => False
   end.
 Proof. vm_compute. repeat split. Qed.
+
+From DesVerif Require Import Runtime.ModelCq Runtime.Compose Runtime.ComposeProps.
+
+(* ---------------------------------------------------------------------------
+   The same for the runtime over the CALENDAR QUEUE.  Runtime/ModelCq.v is the
+   runtime model threading the concrete queue state of des-cqueue (cq_new_at n t
+   start, add, peek_time, fetch_next, len) for the parameters n, t of
+   Builder::cqueue_options; Runtime/Compose.v proves by forward simulation
+   (queue part: the refinement relation of C01) that it prints exactly what the
+   model over the specification prints.  [run_gen_cq repaired] is what the
+   extracted runner executes in the differential check. *)
+Theorem C10_run_over_cqueue_eq_run_over_spec :
+  (forall input : list N, run_gen_cq repaired input = run_gen repaired input) /\
+  (forall (n t : N) (sc : script), n <> 0 -> t <> 0 -> crun_script repaired n t sc = run_script repaired sc).
+Proof. split; [exact run_over_cqueue_eq_run_over_spec|exact run_script_over_cqueue]. Qed.
+Print Assumptions C10_run_over_cqueue_eq_run_over_spec.
+
+Theorem C10_stepped_log_eq_run_log_cq :
+  forall (n t : N) (P : prog) (S B : N) (pre : list (N * N)) (ops : list sop), n <> 0 -> t <> 0 ->
+  forallb is_dispatch ops = true ->
+  exists c1 xs cf u,
+    cexec_sched repaired P (cboot n t S B LNone pre) ops = (Some c1, xs) /\
+    cdispatch_all repaired P c1 = Some cf /\
+    cdispatch_all repaired P (cboot n t S B LNone pre) = Some u /\
+    cfinish cf = cfinish u /\ clog cf = clog u.
+Proof. exact stepped_eq_run_cq. Qed.
+Print Assumptions C10_stepped_log_eq_run_log_cq.
+
+Theorem C10_stepped_block_eq_run_block_cq :
+  forall (n t : N) (sc : script) (sched : list sop), n <> 0 -> t <> 0 ->
+  forallb is_dispatch sched = true ->
+  exists o0 o1 u,
+    crun_block repaired n t sc LNone [] = o0 ++ [finish u] /\
+    crun_block repaired n t sc LNone sched = o0 ++ o1 ++ [finish u].
+Proof. exact stepped_block_cq. Qed.
+Print Assumptions C10_stepped_block_eq_run_block_cq.
+
+(* every paused state of the runtime over the calendar queue (any configured
+   limit, any schedule so far): the reported values, the queue's own clock
+   equals sim_time, add_event is accepted iff t >= sim_time, dispatch_n_events(k)
+   dispatches exactly the next k events of the remaining run (or all),
+   dispatch_events_until(T) exactly those with timestamp <= T *)
+Theorem C10_paused_cq :
+  forall (n t : N) (P : prog) (S B : N) (L : lim) (pre : list (N * N)) (ops : list sop) (c : rtc) (xs : list sout),
+  n <> 0 -> t <> 0 ->
+  cexec_sched repaired P (cboot n t S B L pre) ops = (Some c, xs) ->
+  cstatus c = OStatus (N.of_nat (length (clog c))) (N.of_nat (length (cremaining (cfes c))))
+                      (last (map snd (clog c)) S) (N.of_nat (length (cadds c))) /\
+  Permutation (accepted (cadds c)) (handled (clog c) ++ cremaining (cfes c)) /\
+  CQueue.Model.tcur (cfes c) = cclock c /\
+  (forall tm l, cstep repaired P c (SAdd tm l) = (Some (cadd_event false c tm l), OAddRes (cclock c <=? tm))) /\
+  (forall k, exists c' u,
+     cdispatch_n_events repaired P c k = Some c' /\ cdispatch_all repaired P (cset_limit c LNone) = Some u /\
+     clog c' = clog c ++ firstn (N.to_nat k) (skipn (length (clog c)) (clog u))) /\
+  (forall T, exists c' u,
+     cdispatch_events_until repaired P c T = Some c' /\ cdispatch_all repaired P (cset_limit c LNone) = Some u /\
+     clog c' = clog c ++ filter (fun e => snd e <=? T) (skipn (length (clog c)) (clog u))).
+Proof. exact paused_cq. Qed.
+Print Assumptions C10_paused_cq.
+
+Example C10_nonvacuous_cq :
+  match cexec_sched repaired [[(0, 0, 5)]] (cboot 3 2 0 10 LNone [(0, 0); (0, 1); (0, 2)]) [SN 1; SN 1; SUntil 0] with
+  | (Some c1, xs) => option_map clog (cdispatch_all repaired [[(0, 0, 5)]] c1) = Some [(0, 0); (1, 0); (2, 0); (5, 0)] /\
+                     xs = [OStatus 1 3 0 4; OStatus 2 2 0 4; OStatus 4 0 0 4]
+  | _ => False
+  end.
+Proof. vm_compute. split; reflexivity. Qed.
